@@ -51,9 +51,23 @@ Proof. exact legacy_stream. Qed.
 Theorem C12_blocking_session : forall ident secret es, Qb (brun ident secret es).
 Proof. exact brun_Qb. Qed.
 
+(* ---- the same for the asyncio session with its application-facing methods TRANSLATED from hpfeeds/asyncio/client.py on every
+   run (harness/pytrans6.py -> AioGen.v; AioGenEq.v).  No axioms. *)
+From HP Require Import AioGen AioGenEq.
+Theorem C12_src_asyncio_on_publish_is_model : forall ident secret k body i c d s, readpublish body = Some (i, c, d) ->
+  on_frame ident secret k 3 body s = (Protocol_on_publish i c d s, false).
+Proof. exact on_publish_src_eq. Qed.
+Theorem C12_src_asyncio_publish_is_model : forall ident secret c d s, ClientSession_publish ident secret c d s = do_pub ident secret c d s.
+Proof. exact publish_src_eq. Qed.
+Theorem C12_src_asyncio : forall ident secret es, Q (arun_src ident secret es).
+Proof. exact src_run_Q. Qed.
+
 Print Assumptions C12_asyncio.
 Print Assumptions C12_blocking_session.
 Print Assumptions C12_asyncio_stream.
 Print Assumptions C12_twisted.
 Print Assumptions C12_legacy_recv.
 Print Assumptions C12_legacy_stream.
+Print Assumptions C12_src_asyncio_on_publish_is_model.
+Print Assumptions C12_src_asyncio_publish_is_model.
+Print Assumptions C12_src_asyncio.
